@@ -61,7 +61,10 @@ pub(crate) fn parse(range: Option<&HeaderValue>, len: u64) -> ResolvedRanges {
                 Err(_) => return ResolvedRanges::None, // unparseable
                 Ok(l) => l,
             };
-            if last >= len || last == 0 {
+            // "If the selected representation is shorter than the specified
+            // suffix-length, the entire representation is used."
+            let last = cmp::min(last, len);
+            if last == 0 {
                 continue; // this range is not satisfiable; skip.
             }
             ranges.push((len - last)..len);
